@@ -14,7 +14,7 @@
 (*   {"roots": [[code points of a Shredder-FEN record], ...],              *)
 (*    "depth": n, "setters": 0|1, "sweep": 0|1|2}                          *)
 (***************************************************************************)
-EXTENDS Impl, TextParse, Notation, Json, IOUtils
+EXTENDS ImplParse, Notation, Json, IOUtils
 
 Cfg == JsonDeserialize(IOEnv.MCCFG)
 RootPos(i) == AsPos(Denote(Cfg.roots[i], 1).bs)
@@ -78,6 +78,10 @@ SanCanonical == LET lg == Legal(pos) IN
 CanonRoundTrip == LET d == Denote(CanonCp(pos, TRUE), 1) IN
                   /\ d.ok /\ AsPos(d.bs) = pos /\ Structural(CanonCp(pos, TRUE))
                   /\ (AHRights(pos) => LET e == Denote(CanonCp(pos, FALSE), 0) IN e.ok /\ AsPos(e.bs) = pos)
+\* the implementation-shaped reader model accepts every canonical record and returns the position it was written from
+ParseModelRoundTrip == LET r == ParseImpl(CanonCp(pos, TRUE), 1)  q == ParseImpl(CanonCp(pos, TRUE), 2) IN
+                       /\ r.k = "ok" /\ r.pos = pos /\ q.k = "ok" /\ q.pos = pos
+                       /\ (AHRights(pos) => LET e == ParseImpl(CanonCp(pos, FALSE), 0) IN e.k = "ok" /\ e.pos = pos)
 \* C13: against the same position with the ep file cleared (the case that matters for repetition)
 NoEp == [pos EXCEPT !.ep = -1]
 SameVsNoEp == pos.ep = -1 \/ ImplStage(NoEp) # "ok" \/
